@@ -163,6 +163,11 @@ class Tr:
             bits, sg = width(n)
             if sg:
                 raise NoFit("signed arithmetic on a non-constant")
+            if op == "%":
+                cb = self.const(b)
+                if cb is None or cb <= 0 or cb & (cb - 1):
+                    raise NoFit("operator % by a non-power of two")
+                return "(.and (%s) (.lit %d))" % (self.expr(a), cb - 1)      # x mod 2^k = x & (2^k - 1), unsigned
             names = {"+": "add", "-": "sub", "&": "and", "|": "or"}
             if op not in names:
                 raise NoFit("operator " + op)
